@@ -71,11 +71,17 @@ Definition id_force (target : str) (e : ev) : bool :=
 Definition id_gate_step (target : str) :=
   latch_step always (id_trig target) (id_force target).
 
-(* forkable/gates.go:56 — the first-streamable rule is written with the constants 0, 1 and 2 *)
-Definition irrnum_force (target : N) (e : ev) : bool :=
+(* forkable/gates.go:56 with the fix "IrreversibleBlockNumGate uses GetProtocolFirstStreamableBlock":
+   the same first-streamable rule as BlockNumGate *)
+Definition irrnum_gate_step (first target : N) :=
+  latch_step is_irreversible (num_trig target) (num_force first target).
+
+(* the same gate as shipped (the rule written with the constants 0, 1 and 2): used only for the
+   refutation witness *)
+Definition irrnum_force_unfixed (target : N) (e : ev) : bool :=
   ((target =? 0) || (target =? 1)) && (enum e =? 2).
-Definition irrnum_gate_step (target : N) :=
-  latch_step is_irreversible (num_trig target) (irrnum_force target).
+Definition irrnum_gate_step_unfixed (target : N) :=
+  latch_step is_irreversible (num_trig target) (irrnum_force_unfixed target).
 
 (* forkable/gates.go:125 with C17_fix_irreversible_id_gate_step.diff *)
 Definition irrid_gate_step (target : str) :=
